@@ -161,6 +161,8 @@ type Unit struct {
 	ghosts        map[string]types.Object
 	ghostTy       map[string]types.Type
 	lamTok        map[string]string
+	boxedStatic   map[string]types.Type
+	tparamWitness map[string][]Term
 	heapSorts     map[string]Sort
 	preHeaps      map[string]Sort
 	setupDone     bool
